@@ -29,7 +29,11 @@ CONSTANTS Sentinels,        \* sentinel addresses
           Views,            \* views a sentinel can be given: set of [m: address, r: set of addresses]
           Heal,             \* TRUE: the environment ends with a clean failover + event (liveness configs)
           Record,           \* TRUE: keep the environment steps in `hist` (scenario generation)
-          BugNoRoleCheck, BugIgnoreSwitch, BugKeepOld, BugNoCloseWrong, BugAbsorb, BugInlineRefresh
+          SetNames,         \* master-set names the sentinels publish events about (MasterSet is the client's); a name is a
+                            \* sequence of name parts, so that one name can be a prefix / a suffix of another
+          BugNoRoleCheck, BugIgnoreSwitch, BugKeepOld, BugNoCloseWrong, BugAbsorb, BugInlineRefresh,
+          BugPrefixMatch,   \* the callback compares the event's master-set name by prefix instead of equality
+          BugAnySet         \* the callback does not look at the event's master-set name at all
 
 VARIABLES role, up, sview, sup, budget, healed,     \* environment
           slist, sconn, conn, mu, rf, want, late, lost,   \* client: sentinel list, sentinel connection, installed conns, c.mu, _refresh
@@ -70,9 +74,10 @@ Anchor == IF \E s \in Slots : apc[s] = "decide"
           ELSE IF \E s \in Slots : apc[s] = "swap"
           THEN [at |-> "swapbegin", an |-> att[CHOOSE s \in Slots : apc[s] = "swap"].a]
           ELSE IF Quiet THEN [at |-> "idle", an |-> ""] ELSE [at |-> "now", an |-> ""]
-Rec(op, x, y, z) == hist' = IF Record THEN Append(hist, [op |-> op, x |-> x, y |-> y, z |-> z,
-                                                         at |-> Anchor.at, an |-> Anchor.an])
-                            ELSE hist
+RecS(op, x, y, z, set) == hist' = IF Record THEN Append(hist, [op |-> op, x |-> x, y |-> y, z |-> z, set |-> set,
+                                                               at |-> Anchor.at, an |-> Anchor.an])
+                                  ELSE hist
+Rec(op, x, y, z) == RecS(op, x, y, z, <<>>)
 Spend == budget > 0 /\ healed = "" /\ budget' = budget - 1
 
 \* ---------------------------------------------------------------------------------------------- environment
@@ -90,18 +95,20 @@ SRestart(s) == /\ Spend /\ ~sup[s] /\ sup' = [sup EXCEPT ![s] = TRUE] /\ Rec("sr
 ViewCode(v) == IF v.r = {} THEN "none" ELSE IF v.m \in v.r THEN "all" ELSE "others"
 SView(s, v) == /\ Spend /\ sview[s] # v /\ sview' = [sview EXCEPT ![s] = v] /\ Rec("sview", s, v.m, ViewCode(v))
                /\ UNCHANGED <<corev, role, up, sup, healed, cliv>>
-\* a message on the connection the client is subscribed on (otherwise nobody hears it: no step)
-Msgs == [ch : {"switch", "rebootm", "slave"}, a : Nodes]
+\* a message on the connection the client is subscribed on (otherwise nobody hears it: no step).  The sentinels
+\* monitor every master set of SetNames and publish the events of all of them on the same channels; only an event that
+\* carries the client's own master-set name is a report about the client's master.
+Msgs == [ch : {"switch", "rebootm", "slave"}, a : Nodes, set : SetNames]
 Publish(s, m) == /\ Spend /\ sup[s] /\ sconn = s /\ Len(evq) < MaxEvq
-                 /\ evq' = Append(evq, m) /\ Rec("pub", s, m.ch, m.a)
-                 /\ IF m.ch \in {"switch", "rebootm"} THEN Report("m", {m.a}) ELSE UNCHANGED corev
+                 /\ evq' = Append(evq, m) /\ RecS("pub", s, m.ch, m.a, m.set)
+                 /\ IF m.ch \in {"switch", "rebootm"} /\ Concerns(m.set) THEN Report("m", {m.a}) ELSE UNCHANGED corev
                  /\ UNCHANGED <<role, up, sview, sup, healed, slist, sconn, conn, mu, rf, want, late, lost, eh, apc, own, got>>
 \* clean end of a failover to f: everything is up, f is the only master, every sentinel knows it and says so
 HealSwitch(f) ==
     /\ Heal /\ budget = 0 /\ healed = "" /\ healed' = f /\ Len(evq) < MaxEvq
     /\ up' = [n \in Nodes |-> TRUE] /\ role' = [n \in Nodes |-> IF n = f THEN "master" ELSE "slave"]
     /\ sup' = [s \in Sentinels |-> TRUE] /\ sview' = [s \in Sentinels |-> [m |-> f, r |-> Nodes \ {f}]]
-    /\ IF sconn # "" /\ sup[sconn] THEN evq' = Append(evq, [ch |-> "switch", a |-> f]) /\ Report("m", {f})
+    /\ IF sconn # "" /\ sup[sconn] THEN evq' = Append(evq, [ch |-> "switch", a |-> f, set |-> MasterSet]) /\ Report("m", {f})
                                    ELSE UNCHANGED <<evq, corev>>
     /\ UNCHANGED <<budget, slist, sconn, conn, mu, rf, want, late, lost, eh, apc, own, got, hist>>
 
@@ -222,10 +229,17 @@ SReap(s) == /\ own[s] = "S" /\ apc[s] \in {"ok", "failed"}
 
 \* ---------------------------------------------------------------------------------------------- Pub/Sub callback
 UsesReplicas == Mode \in {"r", "b"}
+\* every handler compares the master-set name the event carries (+switch-master: first word, +reboot master: second,
+\* replica events: the word after "@") with the configured one; events of other master sets are dropped
+IsPrefixOf(p, q) == Len(p) <= Len(q) /\ SubSeq(q, 1, Len(p)) = p
+Accepts(name) == IF BugAnySet THEN TRUE
+                 ELSE IF BugPrefixMatch THEN IsPrefixOf(MasterSet, name)
+                 ELSE Concerns(name)
 EHandle == /\ eh.pc = "idle" /\ evq # <<>>
            /\ evq' = Tail(evq)
            /\ LET m == Head(evq) IN
-                IF m.ch \in {"switch", "rebootm"}
+                IF ~Accepts(m.set) THEN UNCHANGED <<eh, want>>
+                ELSE IF m.ch \in {"switch", "rebootm"}
                 THEN /\ eh' = IF BugIgnoreSwitch /\ m.ch = "switch" THEN eh ELSE [eh EXCEPT !.pc = "lock", !.a = m.a]
                      /\ want' = want
                 ELSE IF UsesReplicas THEN eh' = (IF BugInlineRefresh THEN [eh EXCEPT !.pc = "refresh"] ELSE eh) /\ Request
@@ -295,4 +309,7 @@ FollowsSwitch == \A f \in Nodes : [](healed = f => <>[](conn["m"] = [a |-> f, op
 
 \* scenario generation: print the environment steps of a finished behaviour
 GenDone == budget = 0 => PrintT(<<"CASE", ToJson([mode |-> Mode, steps |-> hist])>>)
+\* ... only behaviours in which a sentinel published an event of another master set
+GenDoneForeign == (budget = 0 /\ \E i \in DOMAIN hist : hist[i].op = "pub" /\ ~Concerns(hist[i].set))
+                  => PrintT(<<"CASE", ToJson([mode |-> Mode, steps |-> hist])>>)
 =============================================================================
